@@ -408,13 +408,13 @@ def run(ctx):
         shape = draw(st.sampled_from(["maximal", "maximal", "random", "minimal"]))
         if shape != "random":
             opts[shape] = True
-        if t == "observed-data" and ver == "2.0" and draw(st.booleans()):
+        if t == "observed-data" and ver == "2.0" and draw(st.integers(0, 3)):
             opts["ref_rich"] = True
             opts["maximal"] = True
         return ver, draw(G.valid_object(ver, type_=t, opts=opts)), shape
 
     per_type = max(2, ndocs // len(types))
-    for ver_t in types + [("2.0", "observed-data")] * 3:
+    for ver_t in types + [("2.0", "observed-data")] * 6:      # (single- and list-valued object references of every member type need several containers)
         strat = st.tuples(typed_doc(ver_t), st.integers(0, 10 ** 6), st.sampled_from(["parse", "parse", "parse", "parse-auto", "parse-auto", "constructor", "constructor", "constructor-tuples"]))
         core.run_given(ctx, strat, body, per_type, label="c02-systematic-%s-%s" % ver_t, rounds=3)
 
